@@ -185,6 +185,16 @@ pub fn wasm(sink: &mut Sink, seed: u64, thorough: bool, alphabet: &str, behaviou
         let id = sink.id();
         sink.emit(&wasm_svg_event(id, "wasmenum:margin", contents[m % 2], &[WCall::Margin(m)]));
     }
+    // the capacity thresholds of the largest version through the facade: cap - 1, cap, cap + 1 characters per (level, mode)
+    for e in 0..4usize { for mode in 0..3usize {
+        let cap = capacity(mode, e, 40);
+        for (k, n) in [cap - 1, cap, cap + 1].into_iter().enumerate() {
+            if !thorough && !(k == 1 || (k == 2 && (e + mode) % 2 == 0)) { continue; }
+            let content: String = match mode { 0 => "7".repeat(n), 1 => "A".repeat(n), _ => "a".repeat(n) };
+            let id = sink.id();
+            sink.emit(&wasm_svg_event(id, &format!("wasmcap:{e}:{mode}:{k}"), &content, &[WCall::Ecl(e), WCall::Margin(0)]));
+        }
+    } }
     // image size x gap x position grids with an image set: zero, fractional, larger than the symbol (values that coincide with 'unset' on the JS side)
     for (i, size) in [0.25f64, 1.0, 5.0, 9.0, 30.0].into_iter().enumerate() { for (j, gap) in [0.0f64, 0.25, 1.0, 3.0].into_iter().enumerate() {
         for (k, pos) in [vec![], vec![0.0, 0.0], vec![12.5, 7.0]].into_iter().enumerate() {
